@@ -15,6 +15,15 @@ ENTRIES = ["tx", "prefix", "checker", "pchecker"]
 
 
 def pick_ranges(rng):
+    if rng.random() < 0.12:
+        # windows across the byte boundaries of the 4-byte little-endian index (and the top of the u32 range)
+        def win():
+            m = rng.choice([2**8, 2**8, 2**16, 2**24, 2**32 - 1])
+            lo = m - rng.choice([1, 2])
+            return lo, min(2**32 - 1, m + rng.choice([1, 2, 3])) if m < 2**32 - 1 else 2**32 - 1
+        c, d = win()
+        a, b = rng.choice([(0, 1), (0, 1), (1, 2), win()])
+        return (a, b, c, d)
     a = rng.choice([0, 0, 1])
     b = a + rng.choice([1, 2, 3])
     c = rng.choice([0, 0, 1, 2])
@@ -33,8 +42,9 @@ def in_range_index(rng, r, want_sub=None):
 
 def out_of_range_index(rng, r):
     a, b, c, d = r
-    return rng.choice([(b + rng.randrange(3), c), (a, d + rng.randrange(3)), (2**32 - 1, 2**32 - 1), (b, d),
-                       (a + 0, d), (b, c)])
+    M = 2**32 - 1
+    return rng.choice([(min(M, b + rng.randrange(3)), c), (a, min(M, d + rng.randrange(3))), (M, M), (min(M, b), min(M, d)),
+                       (a + 0, min(M, d)), (min(M, b), c)])
 
 
 class C07(ScanCheck):
@@ -136,6 +146,23 @@ class C07(ScanCheck):
             ranges.append(rng.choice([(0, 1, 0, 1), (0, 0, 0, 4), (r[0], r[1], r[2], r[2]), pick_ranges(rng)]))
         return s_, [(x, None) for x in ranges], feats
 
+    def boundary_scenarios(self, rng, k):
+        """look-ahead windows that cross a byte boundary of the 4-byte little-endian index (255|256, 65535|65536, 2^24), in the
+        minor or in the major component, with one owned output for EVERY index of the window"""
+        out = []
+        for g in range(k):
+            v, s = sc.rscalar(rng), sc.rscalar(rng)
+            m = [2**8, 2**8, 2**16, 2**24][g % 4]
+            lo, hi = m - 2, m + 3
+            on_major = g % 5 == 4
+            r = (lo, hi, 0, 2) if on_major else (rng.choice([0, 1]), 2, lo, hi)
+            idxs = [(i, j) for i in range(r[0], r[1]) for j in range(r[2], r[3])]
+            rng.shuffle(idxs)
+            outs = [sc.mk_out_wallet(rng, v, s, i, j, False, rng.choice(["n", "y"]), clear=rng.choice([0, 3])) for (i, j) in idxs[:6]]
+            s_ = sc.mk_scenario(rng, v, s, outs, version=2, rct_type=rng.choice([0, 5, 6]), in_kind="key", nadd=len(outs))
+            out.append((s_, [(r, None)], {"range-crosses-byte-boundary", "own-add"}))
+        return out
+
     def gen_cases(self, tier, rng):
         q = tier == "quick"
         plan = [(1, 60), (2, 70), (3, 90)] if q else [(1, 300), (2, 300), (3, 400), (7, 200)]
@@ -174,6 +201,31 @@ class C07(ScanCheck):
                 continue
             s_ = sc.mk_scenario(rng, v, s, outs, version=2, rct_type=rng.choice([4, 5, 6]), in_kind="key", nadd=len(outs), r=r)
             scen.append((s_, [((0, 2, 0, 3), None)], {"tag-coincidence", "own-add", "tag-y"}))
+        scen += self.boundary_scenarios(rng, 8 if q else 40)
+        # repeated one-time keys: the key of an owned output also sits, byte for byte, on other outputs of the transaction (before
+        # it, after it, twice).  At the other positions it matches nothing; at its own position it is still the wallet's
+        for g in range(8 if q else 40):
+            v, s = sc.rscalar(rng), sc.rscalar(rng)
+            idx = rng.choice([(0, 0), (0, 1), (1, 2)])
+            n = rng.choice([2, 3, 4])
+            pos = rng.randrange(n)
+            usemain = idx == (0, 0) and rng.random() < 0.5
+            own = sc.mk_out_wallet(rng, v, s, idx[0], idx[1], usemain, rng.choice(["n", "y"]), clear=rng.choice([0, 7]))
+            r_ = sc.rscalar(rng)
+            probe_outs = [sc.mk_out_raw(rng, sc.garbage_key(rng)) for _ in range(n)]
+            probe_outs[pos] = own
+            kw = dict(version=2, rct_type=rng.choice([0, 4, 5, 6]), in_kind="key", nadd=n, r=r_)
+            probe = sc.mk_scenario(rng, v, s, probe_outs, **kw)
+            Pk = sc.send_output(probe, pos, own)["P"]
+            outs = []
+            for i in range(n):
+                if i == pos:
+                    outs.append(own)
+                else:
+                    t_ = rng.choice([None, None, rng.randrange(256)])
+                    outs.append(sc.mk_out_raw(rng, Pk if rng.random() < 0.8 else sc.garbage_key(rng), t_))
+            s_ = sc.mk_scenario(rng, v, s, outs, **kw)
+            scen.append((s_, [((0, 2, 0, 3), None)], {"repeated-key", "own-main" if usemain else "own-add"}))
         real = self.realise(rng, [(s, rk) for s, rk, _ in scen])
         self.expected, self.truth, self.stats = {}, {}, {"outputs": 0, "owned_reported": 0, "features": {}}
         cases = []
